@@ -3,13 +3,14 @@ import H2V.Lemmas.ConnCountsPPrim
 /-
   C05 / C18 / C19 — part 3: `Same` for the stream methods, and the automation for `Ev` goals.
 
-  A goal `Ev s0 (f a (g b s))` is peeled from the outside: `ev_head` looks at the head function `f`
-  of the target and applies `Ev.trans ?_ (f_ev ..)` where `f_ev : Ev s (f a s)` is found BY NAME
+  A goal `EvB ρ s0 (f a (g b s))` is peeled from the outside: `ev_head` looks at the head function `f`
+  of the target and applies `EvB.trans ?_ (f_ev ..)` where `f_ev : EvB ρ s (f a s)` is found BY NAME
   (`<last component of f>_ev` in this namespace).  `ev_auto` repeats that, splitting `if`s and
   `match`es on the way; side conditions are handed to `ev_side`.
 -/
 namespace H2V.Lemmas.ConnCountsP
 open H2V H2V.Model H2V.Model.Conn
+variable {ρ : Bool}
 attribute [local irreducible] wrapSubU32 wrapSubUsize
 
 -- ===================================================================== `Same` for stream methods
@@ -148,12 +149,12 @@ macro_rules | `(tactic| ev_side) => `(tactic| decide)
 macro_rules | `(tactic| ev_side) => `(tactic| assumption)
 
 open Lean Elab Tactic Meta in
-/-- goal `Ev s0 (f … s …)` (possibly under `.1`): peel `f` with the lemma `f_ev` found by name -/
+/-- goal `EvB ρ s0 (f … s …)` (possibly under `.1`): peel `f` with the lemma `f_ev` found by name -/
 elab "ev_head" : tactic => withMainContext do
   let g ← getMainGoal
   let t ← instantiateMVars (← g.getType)
   let t := t.cleanupAnnotations
-  unless t.isAppOfArity ``Ev 2 do throwError "ev_head: not an Ev goal"
+  unless t.isAppOfArity ``EvB 3 do throwError "ev_head: not an Ev goal"
   let e := t.appArg!
   let rec headOf (e : Expr) (fuel : Nat) : Option Name :=
     match fuel with
@@ -179,34 +180,34 @@ elab "ev_head" : tactic => withMainContext do
   | some n =>
     if n == ``Streams.mk then
       evalTactic (← `(tactic| first
-        | with_reducible refine Ev.trans ?_ (setMisc_ev _ _ _ _ _ _ ⟨rfl, rfl, rfl, rfl, rfl⟩)
-        | with_reducible refine Ev.trans ?_ (setCounts_ev _ _ ?_)))
+        | with_reducible refine EvB.trans ?_ (setMisc_ev _ _ _ _ _ _ ⟨rfl, rfl, rfl, rfl, rfl⟩)
+        | with_reducible refine EvB.trans ?_ (setCounts_ev _ _ ?_)))
     else
     let last := match n with
       | .str _ s => s
       | _ => "?"
     let lemmaName := (`H2V.Lemmas.ConnCountsP).str (last ++ "_ev")
     unless (← getEnv).contains lemmaName do throwError "ev_head: no lemma {lemmaName}"
-    let gs ← g.apply (← mkConstWithFreshMVarLevels ``Ev.trans)
+    let gs ← g.apply (← mkConstWithFreshMVarLevels ``EvB.trans)
     let gs ← gs.filterM fun m => do
       let ty ← instantiateMVars (← m.getType)
-      pure (ty.cleanupAnnotations.isAppOfArity ``Ev 2)
+      pure (ty.cleanupAnnotations.isAppOfArity ``EvB 3)
     match gs with
     | [g1, g2] =>
       let side ← withReducible (g2.apply (← mkConstWithFreshMVarLevels lemmaName))
       replaceMainGoal (g1 :: side)
-    | _ => throwError "ev_head: unexpected goals after Ev.trans"
+    | _ => throwError "ev_head: unexpected goals after EvB.trans"
 
 /-- one step on an `Ev` goal (alternatives are tried bottom-up) -/
 syntax "ev_step" : tactic
 macro_rules | `(tactic| ev_step) => `(tactic| ev_head)
-macro_rules | `(tactic| ev_step) => `(tactic| with_reducible refine Ev.of_fst_eq (by with_reducible assumption) ?_)
+macro_rules | `(tactic| ev_step) => `(tactic| with_reducible refine EvB.of_fst_eq (by with_reducible assumption) ?_)
 macro_rules | `(tactic| ev_step) => `(tactic| with_reducible assumption)
-macro_rules | `(tactic| ev_step) => `(tactic| with_reducible exact Ev.refl _)
+macro_rules | `(tactic| ev_step) => `(tactic| with_reducible exact EvB.refl _)
 
 macro "ev_auto" : tactic => `(tactic| repeat (first | ev_step | ev_side | intro _ | split | dsimp only))
-/-- the same with an induction hypothesis `ih : ∀ …, Ev s (loop n … s …)` -/
+/-- the same with an induction hypothesis `ih : ∀ …, EvB ρ s (loop n … s …)` -/
 macro "ev_auto_ih" ih:ident : tactic =>
-  `(tactic| repeat (first | ev_step | with_reducible refine Ev.trans ?_ ($ih ..) | ev_side | intro _ | split | dsimp only))
+  `(tactic| repeat (first | ev_step | with_reducible refine EvB.trans ?_ ($ih ..) | ev_side | intro _ | split | dsimp only))
 
 end H2V.Lemmas.ConnCountsP
